@@ -193,6 +193,67 @@ def traversal_trace(ast, table, stop=()):
     return dict(nodes=nodes, root=root, visits=visits, stop=list(stop)), len(b.getvalue().splitlines()), unfolded(root)
 
 
+def hierarchy_traces(ast, table, rnd):
+    """Visitor classes in an inheritance chain A <- B <- C, each adding one visit_X, used one after the other in
+    every order (fresh classes per order): interception must depend on the visitor's own class only, never on
+    which visitors ran before.  Returns Traversal traces (one per visit)."""
+    import itertools
+    from pycparser import c_ast, _verif
+    present = sorted({type(n).__name__ for n in _all_nodes(ast, table)})
+    if len(present) < 4:
+        return []
+    ks = rnd.sample(present, 3)
+    # node table
+    ids, nodes = {}, []
+
+    def go(n):
+        if id(n) in ids:
+            return ids[id(n)]
+        nodes.append(None)
+        my = len(nodes)
+        ids[id(n)] = my
+        nodes[my - 1] = dict(k=type(n).__name__, kids=[go(c) for c in spec_children(n, table)])
+        return my
+
+    root = go(ast)
+    out = []
+    for order in itertools.permutations(range(3)):
+        A = type("A", (c_ast.NodeVisitor,), {"visit_" + ks[0]: (lambda self, node: None)})
+        B = type("B", (A,), {"visit_" + ks[1]: (lambda self, node: None)})
+        C = type("C", (B,), {"visit_" + ks[2]: (lambda self, node: None)})
+        classes = [(A, ks[:1]), (B, ks[:2]), (C, ks[:3])]
+        for idx in order + order[:1]:
+            cls, stop = classes[idx]
+            visits = []
+
+            def sink(ev):
+                if ev["e"] == "visit":
+                    visits.append(ids.get(ev["n"], 0))
+
+            prev = _verif.SINK
+            _verif.set_sink(sink)
+            try:
+                cls().visit(ast)
+            except Exception as e:  # noqa
+                visits.append(0)
+            finally:
+                _verif.set_sink(prev)
+            out.append(dict(nodes=nodes, root=root, visits=visits, stop=list(stop)))
+    return out
+
+
+def _all_nodes(ast, table):
+    seen, stack, out = set(), [ast], []
+    while stack:
+        n = stack.pop()
+        if id(n) in seen:
+            continue
+        seen.add(id(n))
+        out.append(n)
+        stack.extend(spec_children(n, table))
+    return out
+
+
 def run(tier):
     ctx = Ctx("C14", tier, "model_checking")
     rnd = random.Random(ctx.seed)
@@ -252,6 +313,8 @@ def run(tier):
                 ctx.fail("show() prints %d lines for a tree of %d nodes (node-valued attributes: %s)" % (
                     lines, nn, ",".join(why) or "none"), dict(kind="show"))
             traces.append(tr)
+    for a in rnd.sample(asts, min(len(asts), 40 if tier == "quick" else 600)):
+        traces += hierarchy_traces(a, table, rnd)
     wd = workdir("c14t")
     try:
         p = os.path.join(wd, "traces.json")
